@@ -336,3 +336,151 @@ pub fn closure1(e: &syn::Expr) -> Option<(String, &syn::Expr)> {
     }
     None
 }
+
+// ---------------------------------------------------------------------------------------------------------
+// private helper functions called as a sub-expression
+
+/// a function whose body is `(let x = E;)* <expr>`: calling it IS that expression with the parameters replaced by the
+/// arguments (the `let`s are names, as everywhere in these translators)
+pub struct Helper {
+    pub params: Vec<String>,
+    pub has_self: bool,
+    pub body: syn::Expr,
+}
+
+/// `(let x = E;)* <tail>` (also `return <tail>;` as the last statement) → tail with the lets substituted
+pub fn expr_body(b: &syn::Block) -> Option<syn::Expr> {
+    let mut env = Env::default();
+    let n = b.stmts.len();
+    for (k, st) in b.stmts.iter().enumerate() {
+        match st {
+            syn::Stmt::Local(l) if k + 1 < n => match plain_let(l) {
+                Some((nm, false, init)) => env.bind(&nm, init),
+                _ => return None,
+            },
+            syn::Stmt::Expr(e, None) if k + 1 == n => return Some(env.resolve(e)),
+            syn::Stmt::Expr(syn::Expr::Return(r), _) if k + 1 == n => return r.expr.as_ref().map(|e| env.resolve(e)),
+            _ => return None,
+        }
+    }
+    None
+}
+
+fn sig_helper(sig: &syn::Signature, block: &syn::Block) -> Option<Helper> {
+    if sig.asyncness.is_some() {
+        return None;
+    }
+    let has_self = sig.inputs.iter().any(|a| matches!(a, syn::FnArg::Receiver(_)));
+    let params = param_names(sig);
+    if params.len() + has_self as usize != sig.inputs.len() {
+        return None;
+    }
+    Some(Helper { params, has_self, body: expr_body(block)? })
+}
+
+/// the non-`pub` functions of a file (free functions and methods of inherent impls of `ty`, when given) that have the
+/// `Helper` form, except the names in `keep`
+pub fn helpers_of(f: &syn::File, ty: Option<&str>, keep: &[&str]) -> BTreeMap<String, Helper> {
+    let mut m = BTreeMap::new();
+    let private = |v: &syn::Visibility| matches!(v, syn::Visibility::Inherited);
+    for it in &f.items {
+        match it {
+            syn::Item::Fn(func) if private(&func.vis) => {
+                let n = func.sig.ident.to_string();
+                if !keep.contains(&n.as_str()) {
+                    if let Some(h) = sig_helper(&func.sig, &func.block) {
+                        m.insert(n, h);
+                    }
+                }
+            }
+            syn::Item::Impl(im) if im.trait_.is_none() && ty.map(|t| self_type_name(im) == t).unwrap_or(false) => {
+                for ii in &im.items {
+                    if let syn::ImplItem::Fn(func) = ii {
+                        let n = func.sig.ident.to_string();
+                        if private(&func.vis) && !keep.contains(&n.as_str()) {
+                            if let Some(h) = sig_helper(&func.sig, &func.block) {
+                                m.insert(n, h);
+                            }
+                        }
+                    }
+                }
+            }
+            _ => {}
+        }
+    }
+    m
+}
+
+/// replaces `name(args)`, `Self::name(args)`, `<Ty>::name(args)` (helper without receiver) and `self.name(args)`
+/// (helper with receiver) by the helper's body; nested helper calls are followed up to a fixed depth
+pub struct Inliner<'a> {
+    pub helpers: &'a BTreeMap<String, Helper>,
+    pub ty: Option<&'a str>,
+    pub depth: usize,
+}
+
+impl<'a> Inliner<'a> {
+    fn expand(&self, h: &Helper, args: Vec<syn::Expr>) -> Option<syn::Expr> {
+        if h.params.len() != args.len() || self.depth == 0 {
+            return None;
+        }
+        let mut env = Env::default();
+        for (p, a) in h.params.iter().zip(args.into_iter()) {
+            env.map.insert(p.clone(), a);
+        }
+        let mut body = env.resolve(&h.body);
+        Inliner { helpers: self.helpers, ty: self.ty, depth: self.depth - 1 }.visit_expr_mut(&mut body);
+        Some(body)
+    }
+}
+
+impl<'a> VisitMut for Inliner<'a> {
+    fn visit_expr_mut(&mut self, e: &mut syn::Expr) {
+        syn::visit_mut::visit_expr_mut(self, e);
+        let repl = match &*e {
+            syn::Expr::Call(c) => match path_segments(&c.func) {
+                Some(segs) => {
+                    let ok_prefix = match segs.len() {
+                        1 => true,
+                        2 => segs[0] == "Self" || Some(segs[0].as_str()) == self.ty,
+                        _ => false,
+                    };
+                    match self.helpers.get(segs.last().unwrap()) {
+                        Some(h) if ok_prefix && !h.has_self => self.expand(h, c.args.iter().cloned().collect()),
+                        _ => None,
+                    }
+                }
+                None => None,
+            },
+            syn::Expr::MethodCall(m) if ident_of(&m.receiver).as_deref() == Some("self") => match self.helpers.get(&m.method.to_string()) {
+                Some(h) if h.has_self => self.expand(h, m.args.iter().cloned().collect()),
+                _ => None,
+            },
+            _ => None,
+        };
+        if let Some(r) = repl {
+            *e = wrap(r);
+        }
+    }
+}
+
+/// every multi-segment path that occurs in an expression (`A::B`, `A::B::c`), canonical text, in order, generic
+/// arguments dropped, a leading `Self` written as the given type
+pub fn paths_in(e: &syn::Expr, self_ty: &str) -> Vec<String> {
+    struct P<'a>(Vec<String>, &'a str);
+    impl<'ast, 'a> syn::visit::Visit<'ast> for P<'a> {
+        fn visit_expr_path(&mut self, p: &'ast syn::ExprPath) {
+            if p.path.segments.len() >= 2 {
+                let mut segs: Vec<String> = p.path.segments.iter().map(|s| s.ident.to_string()).collect();
+                if segs[0] == "Self" {
+                    segs[0] = self.1.to_string();
+                }
+                self.0.push(segs.join("::"));
+            }
+            syn::visit::visit_expr_path(self, p);
+        }
+    }
+    let mut v = P(Vec::new(), self_ty);
+    syn::visit::Visit::visit_expr(&mut v, e);
+    v.0
+}
